@@ -136,6 +136,31 @@ def mass_expiry_part(out, wd, seed):
         for (pip, pport) in pers:
             if not _register(cl.nodes[0], psvc, pip, pport, ephemeral=False):
                 raise common.Inconclusive("persistent registration refused")
+        # a persistent instance on a closed port, switched to ephemeral through a node that does NOT own its service, then kept
+        # alive by heartbeats through that node: the heartbeat clock supervises it from now on, the TCP probe must let go of it
+        fsvc = next((s for s in names[2:] if cl.nodes[hv[s] % 3] is not cl.nodes[0]), names[2])
+        fport = procrig.free_ports(1)[0]
+        flip = {"obs": [], "stop": threading.Event()}
+        if not _register(cl.nodes[0], fsvc, "127.0.0.1", fport, ephemeral=False):
+            raise common.Inconclusive("persistent registration (flip case) refused")
+        time.sleep(1.0)
+        if not _register(cl.nodes[0], fsvc, "127.0.0.1", fport, ephemeral=True):
+            raise common.Inconclusive("switch to ephemeral refused")
+        flip["t_switch"] = time.time()
+
+        def flip_beater():
+            while not flip["stop"].is_set():
+                try:
+                    _beat(cl.nodes[0], fsvc, "127.0.0.1", fport)
+                    for n in cl.nodes:
+                        l = _list(n, fsvc)
+                        if l is not None:
+                            flip["obs"].append((round(time.time() - flip["t_switch"], 1), n.id, l.get(("127.0.0.1", fport))))
+                except OSError:
+                    pass
+                flip["stop"].wait(1.0)
+        fth = threading.Thread(target=flip_beater, daemon=True)
+        fth.start()
         ctx = multiprocessing.get_context("fork")
         t0 = time.time()
         P = 6
@@ -205,6 +230,20 @@ def mass_expiry_part(out, wd, seed):
                                                                            "probe_interval_s": 5, "T_s": T, "listed": pinfo[n.id]})
                 else:
                     out.shape("persistent/%s/%s/kept" % (what, "healthy" if l[k] else "unhealthy"))
+        # ---- the switched instance: heart-beating all the time (H = 3 s, beats every second), observed on every node
+        flip["stop"].set()
+        fth.join(5)
+        obs = [o for o in flip["obs"] if o[0] >= 2.0]
+        bad = [o for o in obs if o[2] is not True]
+        out.evaluations += len(obs)
+        info["switched_instance_observations"] = len(obs)
+        if len(obs) >= 20:
+            if bad:
+                out.violation("unhealthy-or-absent-while-heart-beating/persistent-switched-to-ephemeral-through-non-owner",
+                              {"service": fsvc, "owner_node": cl.nodes[hv[fsvc] % 3].id, "switched_and_beaten_through_node": cl.nodes[0].id, "instance": "127.0.0.1:%d (closed port)" % fport,
+                               "probe_interval_s": 5, "beat_period_s": 1, "H_s": H, "bad_observations_(s_after_switch,node,healthy)": bad[:10], "n_bad": len(bad), "n_observations": len(obs)})
+            else:
+                out.shape("flip-persistent-to-ephemeral-through-non-owner/heart-beating/healthy-on-all-nodes")
         info["persistent_instances_after_s"] = round(time.time() - t_pers, 1)
         info["persistent_listing_per_node"] = pinfo
         out.extra["mass_expiry"] = info
